@@ -23,7 +23,7 @@ int Debug::printf(const char* format, ...)
   return r;
 }
 
-enum { NE = 3, NG = 9, NV = 10, NL = 3, NS = 2, MAXK = 8, MAXACT = 8, MAXLOG = 1 << 16 };
+enum { NE = 3, NG = 10, NV = 10, NL = 3, NS = 2, MAXK = 8, MAXACT = 8, MAXLOG = 1 << 16 };
 
 struct Act
 {
@@ -74,6 +74,8 @@ struct Em : public Pad, public Callback::Emitter
   void sig6(int, int, int, int, int, int) {}
   void sig7(int, int, int, int, int, int, int) {}
   void sig8(int, int, int, int, int, int, int, int) {}
+  // signal 9: one parameter of reference type - emit then declares `int& arg0`, all slots get the caller's object
+  void sig9(int&) {}
   // the emitter may be deleted by a slot: nothing reads `this` after `emit` has returned
   void fire(int g, int v)
   {
@@ -87,12 +89,13 @@ struct Em : public Pad, public Callback::Emitter
     case 5: emit<Em, int, int, int, int, int>(&Em::sig5, v, v + 1, v + 2, v + 3, v + 4); break;
     case 6: emit<Em, int, int, int, int, int, int>(&Em::sig6, v, v + 1, v + 2, v + 3, v + 4, v + 5); break;
     case 7: emit<Em, int, int, int, int, int, int, int>(&Em::sig7, v, v + 1, v + 2, v + 3, v + 4, v + 5, v + 6); break;
-    default: emit<Em, int, int, int, int, int, int, int, int>(&Em::sig8, v, v + 1, v + 2, v + 3, v + 4, v + 5, v + 6, v + 7); break;
+    case 8: emit<Em, int, int, int, int, int, int, int, int>(&Em::sig8, v, v + 1, v + 2, v + 3, v + 4, v + 5, v + 6, v + 7); break;
+    default: { int cell = v; emit<Em, int&>(&Em::sig9, cell); } break; // `cell` lives here: the emitter may be gone afterwards
     }
   }
 };
 
-static void runSlot(int l, int s, int v);
+static int runSlot(int l, int s, int v);
 
 // the tuple must arrive complete and in order: (v, v+1, ..., v+k-1)
 static bool inOrder(int k, const int* a)
@@ -122,9 +125,13 @@ struct Li : public Pad, public Callback::Listener
   SLOT_PAIR(6, (int a, int b, int c, int d, int e, int f), ARR(a, b, c, d, e, f))
   SLOT_PAIR(7, (int a, int b, int c, int d, int e, int f, int g), ARR(a, b, c, d, e, f, g))
   SLOT_PAIR(8, (int a, int b, int c, int d, int e, int f, int g, int h), ARR(a, b, c, d, e, f, g, h))
+  // reference parameter: the slot adds what its script says (`aD` actions) to the caller's object before it returns
+  // (`this` may be deleted by then; `a` is the emitting caller's variable)
+  void slot0_9(int& a) { int v = a; a = v + runSlot(id, 0, v); logEv('r', a, 0, 0); }
+  void slot1_9(int& a) { int v = a; a = v + runSlot(id, 1, v); logEv('r', a, 0, 0); }
 };
 
-#define FOR_ARITIES(X) X(0) X(1) X(2) X(3) X(4) X(5) X(6) X(7) X(8)
+#define FOR_ARITIES(X) X(0) X(1) X(2) X(3) X(4) X(5) X(6) X(7) X(8) X(9)
 
 static void doConnect(Em* e, int g, Li* l, int s)
 {
@@ -275,17 +282,23 @@ static void doAct(const Act& a)
   }
 }
 
-static void runSlot(int l, int s, int v)
+// returns what the script adds to the slot's parameter
+static int runSlot(int l, int s, int v)
 {
   logEv('c', l, s, v);
   if(l < 0)
-    return;
+    return 0;
   int idx = invCount[l][s]++;
   if(idx >= MAXK)
-    return;
+    return 0;
+  int bump = 0;
+  for(int i = 0; i < scriptLen[l][s][idx]; ++i)
+    if(script[l][s][idx][i].kind == 'a')
+      bump += script[l][s][idx][i].v;
   // the script is global data: the listener may delete itself (or anything else) here
   for(int i = 0; i < scriptLen[l][s][idx]; ++i)
     doAct(script[l][s][idx][i]);
+  return bump;
 }
 
 static void resetAll(bool inPlaceMode)
@@ -337,6 +350,8 @@ static void observe()
       printf(" %d.%d:%d", logBuf[i][1], logBuf[i][2], logBuf[i][3]);
     else if(logBuf[i][0] == 'b')
       printf(" <%d.%d:%d", logBuf[i][1], logBuf[i][2], logBuf[i][3]);
+    else if(logBuf[i][0] == 'r')
+      printf(" =%d", logBuf[i][1]);
     else
       printf(" >");
   printf(" |");
@@ -425,6 +440,8 @@ static bool parseAction(const char* t, Act& a)
     return digit(t[1], NE, a.e) && digit(t[2], NG, a.g) && digit(t[3], NL, a.l) && digit(t[4], NS, a.s);
   if(t[0] == 'm' && n == 4)
     return digit(t[1], NE, a.e) && digit(t[2], NG, a.g) && digit(t[3], NV, a.v) && !(a.g == 0 && a.v != 0);
+  if(t[0] == 'a' && n == 2)
+    return digit(t[1], 10, a.v);
   if(t[0] == 'L' && n == 2)
     return digit(t[1], NL, a.l);
   if(t[0] == 'E' && n == 2)
